@@ -165,12 +165,41 @@ def run(ctx):
                     violations.append({"what": "after a set raced by a touch/lookup, the new entry %s carries modification time %s, older than the set itself: it was not enqueued fresh" % (f[0], f[5]),
                                        "classification": {"kind": "stale-mtime-after-set", "family": fam["name"].split(":")[1]},
                                        "replay": {"kind": "schedule", "family": fam["name"], "setup": fam["setup"], "participants": K.part_lines(fam), "schedule": K.schedule_text(cr), "raw_schedule": K.schedule_raw(cr)}})
+    # a value file that was prepared long ago (old mtime) is still enqueued at the back when published
+    old_cases = []
+    for w in (("plain", 300), ("sharded", 4, 1200)):
+        for opk in ("set_path", "put_path"):
+            for pre in (True, False):
+                KEYO = ("kk", 7, 9)
+                L = G.header(w, (), "none")
+                L += [G.plant(G.key_path(w, "w", ("older", 7, 9)), "x", mtime=G.T0 + 5 * 10**9, atime=G.T0)]
+                if pre and opk == "set_path":
+                    L += [G.plant(G.key_path(w, "w", KEYO), "A", mtime=G.T0 + 10**9, atime=G.T0)]
+                L += [G.plant("stage/prepared", "NEWVALUE", mode=0o644, mtime=G.T0 - 600 * 10**9, atime=G.T0 - 600 * 10**9),
+                      G.NOFIRE, G.op(0, opk, KEYO, "stage/prepared"), "snap"]
+                old_cases.append(({"op": opk, "w": w[0], "overwrite": pre}, L))
+    ores = S.run_many(old_cases)
+    for desc, lines, impl, model, diffs in ores:
+        if diffs:
+            ties.append({"what": "model and implementation disagree (value file prepared long ago)", "case": str(desc), "detail": diffs[:4]})
+        else:
+            agree += 1
+        if impl is None or not impl.snaps:
+            continue
+        ents = {l.split(" ")[0]: l.split(" ") for l in impl.snaps[-1]}
+        new = [f for p, f in ents.items() if f[1] == "f" and f[7] == "NEWVALUE" and p.startswith("w/")]
+        older = [f for p, f in ents.items() if p.endswith("/older")]
+        if new and older and int(new[0][5]) <= int(older[0][5]):
+            violations.append({"what": "%s of a value file prepared long ago left the new entry with modification time %s, not after the older entry's %s: it was not enqueued at the back" % (desc["op"], new[0][5], older[0][5]),
+                               "classification": {"kind": "not-enqueued-fresh", "op": desc["op"]}, "replay": {"kind": "history", "env": {}, "scenario": lines}})
+        if new and int(new[0][6]) >= int(new[0][5]):
+            violations.append({"what": "%s left the new entry marked as read" % desc["op"], "classification": {"kind": "born-marked", "op": desc["op"]}, "replay": {"kind": "history", "env": {}, "scenario": lines}})
     seen, uniq = set(), []
     for v in violations:
         k = tuple(sorted(v["classification"].items()))
         if k not in seen:
             seen.add(k); uniq.append(v)
-    cov = {"evaluations": len(res) + len(sched_runs), "distinct_nontrivial": nontriv + len(sched_runs), "steps": steps, "real_schedules_explored": len(sched_runs),
+    cov = {"evaluations": len(res) + len(sched_runs) + len(ores), "distinct_nontrivial": nontriv + len(sched_runs), "steps": steps, "real_schedules_explored": len(sched_runs),
            "rule": "operation sequences (30-60 steps) over 3-5 keys on plain, sharded and stacked front-ends under {kernel default relatime, emulated no-atime} x {native, 1 s, 2 s} timestamp granularity, run back to back so that reads fall in the granule of the insertion: after every step (rank order, read mark, content) of every entry is compared with the model run under the same policy, and the property's oracle is applied to the implementation's snapshots (a read marks and neither reorders nor rewrites, a put onto an existing key likewise, a set / inserting put is newest and unmarked). In addition every single context-switch schedule of {touch, get | set} on one key (real processes, gate mode) is run: the set's value must end up stamped with the time of the set. Non-trivial = coarse granularity or no-atime, or a real schedule.",
            "samples": samples, "traces_validated_against_impl": agree}
     if not ctx.quick():
